@@ -3,6 +3,7 @@ package chainsim
 import (
 	"bytes"
 	"fmt"
+	"strings"
 	"testing"
 	"time"
 
@@ -218,7 +219,9 @@ func (tamperEngine) run(ctx *simrt.Ctx) *simrt.Violation {
 			}
 			if !bytes.Equal(normBlock(d.Block, b.Hash), normBlock(b.Block, b.Hash)) {
 				sig := "no-tampered-copy/" + when
-				if cf := copyFirst[b.ID]; cf != "" {
+				if cf := copyFirst[b.ID]; strings.HasPrefix(cf, "accepted-noncanonical-order/") {
+					sig = cf
+				} else if cf != "" {
 					sig = "stored-unvalidated/" + cf
 				}
 				return ctx.Violate("serves-rejected-body", sig, "GetBlockByHashes(%x) (block id %d, height %d) returns a body that differs from the valid block with that hash: %d txs vs %d", b.Hash, b.ID, b.Height, len(d.Block.Txs), len(b.Block.Txs))
@@ -312,8 +315,17 @@ func (tamperEngine) run(ctx *simrt.Ctx) *simrt.Violation {
 				if bad == nil {
 					continue
 				}
+				mname := mutNames[kind]
+				crossGroup := false
+				if kind == mutSwapTx && sameOrder(types.TransactionSort(bad.Txs), types.TransactionSort(b.Block.Txs)) {
+					// the swap only moved transactions between the main-chain group and a
+					// parallel chain's group: the transaction root is computed over the
+					// canonical (grouped) order, so this body has the valid root
+					mname = "reorder-across-chain-groups"
+					crossGroup = true
+				}
 				ctx.Fault("tampered_block")
-				ctx.Probe("mut_" + mutNames[kind])
+				ctx.Probe("mut_" + mname)
 				if delivered[b.ID] {
 					ctx.Probe("tampered_after_genuine")
 				} else {
@@ -330,6 +342,8 @@ func (tamperEngine) run(ctx *simrt.Ctx) *simrt.Violation {
 				}
 				shape := ""
 				switch {
+				case crossGroup:
+					shape = "K4"
 				case sameHeader && !delivered[b.ID]:
 					shape = "K1"
 				case !sameHeader && kind != mutParent && !parentConnected:
@@ -347,16 +361,16 @@ func (tamperEngine) run(ctx *simrt.Ctx) *simrt.Violation {
 					Deliver(sut, bad, 2, "download")
 					afterTip, afterKeys := snapshot(sut)
 					if beforeTip != afterTip {
-						return ctx.Violate("invalid-block-changed-chain", "download/"+mutNames[kind], "a %s-corrupted copy of block id %d delivered through the fast-download path changed the best chain from %s to %s", mutNames[kind], b.ID, beforeTip, afterTip)
+						return ctx.Violate("invalid-block-changed-chain", "download/"+mname, "a %s-corrupted copy of block id %d delivered through the fast-download path changed the best chain from %s to %s", mname, b.ID, beforeTip, afterTip)
 					}
 					if fam, detail := diffKeyMaps(beforeKeys, afterKeys); fam != "" {
-						return ctx.Violate("invalid-block-changed-indexes", "download/"+mutNames[kind]+"/"+fam, "a %s-corrupted copy of block id %d delivered through the fast-download path changed the database: %s", mutNames[kind], b.ID, detail)
+						return ctx.Violate("invalid-block-changed-indexes", "download/"+mname+"/"+fam, "a %s-corrupted copy of block id %d delivered through the fast-download path changed the database: %s", mname, b.ID, detail)
 					}
 					ok, msg := Deliver(sut, b.Block, 1, pid)
 					delivered[b.ID] = true
 					// (waiting orphans may have been connected on top of it)
 					if !isAncestorHash(sut, b.Hash, b.Height) {
-						return ctx.Violate("valid-block-not-accepted", "after-download-copy/"+mutNames[kind], "block id %d (height %d) extends the tip; a %s-corrupted copy with the same header came through the fast-download path and was rejected, then the genuine block arrived and was refused: ok=%v %q", b.ID, b.Height, mutNames[kind], ok, msg)
+						return ctx.Violate("valid-block-not-accepted", "after-download-copy/"+mname, "block id %d (height %d) extends the tip; a %s-corrupted copy with the same header came through the fast-download path and was rejected, then the genuine block arrived and was refused: ok=%v %q", b.ID, b.Height, mname, ok, msg)
 					}
 					if v := served(b, "after-download-copy"); v != nil {
 						return v
@@ -371,6 +385,9 @@ func (tamperEngine) run(ctx *simrt.Ctx) *simrt.Violation {
 					ctx.Probe("open_delivered_" + shape)
 					saw[shape] = true
 				}
+				if shape == "K4" && copyFirst[b.ID] == "" && !delivered[b.ID] {
+					copyFirst[b.ID] = "accepted-noncanonical-order/" + mname
+				}
 				if shape == "K1" && copyFirst[b.ID] == "" {
 					path := "side"
 					switch {
@@ -379,24 +396,24 @@ func (tamperEngine) run(ctx *simrt.Ctx) *simrt.Violation {
 					case extendsTip:
 						path = "tip"
 					}
-					copyFirst[b.ID] = path + "/" + mutNames[kind]
+					copyFirst[b.ID] = path + "/" + mname
 				}
 				// (for a same-header copy on a side branch the extra weight may come from
 				// valid descendants already waiting in the orphan pool)
 				failedReorgShape := shape == "K3" || (shape == "K1" && parentConnected && !extendsTip)
 				beforeTip, beforeKeys := snapshot(sut)
 				ok, msg := Deliver(sut, bad, int(op.Int(1)), pid)
-				ctx.Logf("dlv TAMPERED(%s) id=%d h=%d ok=%v %s -> height %d", mutNames[kind], b.ID, b.Height, ok, msg, sut.Chain.GetBlockHeight())
+				ctx.Logf("dlv TAMPERED(%s) id=%d h=%d ok=%v %s -> height %d", mname, b.ID, b.Height, ok, msg, sut.Chain.GetBlockHeight())
 				afterTip, afterKeys := snapshot(sut)
 				if beforeTip != afterTip {
-					sig := mutNames[kind]
+					sig := mname
 					if failedReorgShape {
-						sig = "failed-reorg/" + mutNames[kind]
+						sig = "failed-reorg/" + mname
 					}
-					return ctx.Violate("invalid-block-changed-chain", sig, "delivering a %s-corrupted copy of block id %d changed the best chain from %s to %s", mutNames[kind], b.ID, beforeTip, afterTip)
+					return ctx.Violate("invalid-block-changed-chain", sig, "delivering a %s-corrupted copy of block id %d changed the best chain from %s to %s", mname, b.ID, beforeTip, afterTip)
 				}
 				if fam, detail := diffKeyMaps(beforeKeys, afterKeys); fam != "" {
-					return ctx.Violate("invalid-block-changed-indexes", mutNames[kind]+"/"+fam, "delivering a %s-corrupted copy of block id %d changed the database outside by-hash block storage: %s", mutNames[kind], b.ID, detail)
+					return ctx.Violate("invalid-block-changed-indexes", mname+"/"+fam, "delivering a %s-corrupted copy of block id %d changed the database outside by-hash block storage: %s", mname, b.ID, detail)
 				}
 			}
 			if v := ChainInvariant(sut); v != nil {
@@ -448,7 +465,23 @@ func (tamperEngine) run(ctx *simrt.Ctx) *simrt.Violation {
 		return ctx.Violate("valid-block-not-accepted", sig, "all valid blocks were delivered (some after corrupted copies) but the best chain tip is %x (height %d), not the heaviest valid branch tip id %d (height %d). %s",
 			last, sut.Chain.GetBlockHeight(), best.ID, best.Height, detail)
 	}
-	return twinCompare(ctx, w, sut, best, delivered, true, maxH, uid, true)
+	v := twinCompare(ctx, w, sut, best, delivered, true, maxH, uid, true)
+	if v != nil && saw["K4"] {
+		v.Sig = "after-noncanonical-order/" + v.Sig
+	}
+	return v
+}
+
+func sameOrder(a, b []*types.Transaction) bool {
+	if len(a) != len(b) {
+		return false
+	}
+	for i := range a {
+		if !bytes.Equal(a[i].FullHash(), b[i].FullHash()) {
+			return false
+		}
+	}
+	return true
 }
 
 // isConnected reports whether the node knows block b (best chain or side chain),
